@@ -178,6 +178,53 @@ Section ProtocolProofs.
   Qed.
 End ProtocolProofs.
 
+Section Corollaries.
+  Variables Y P U O : Type.
+  Variable flow : P -> Q -> Y -> Q -> Y.
+  Variable solve_ok : P -> Q -> Y -> Q -> bool.
+  Variable conv : Y -> Y -> bool.
+  Variable pupd : P -> U -> P.
+  Variable yovr : Y -> O -> Y.
+  Variable fx : sim_facts.
+  Hypothesis good : good_facts fx.
+
+  Lemma step_governs (s : sim Y P) (u : U) (t_end : Q) (m : nat) (s' : sim Y P) :
+    Inv2 Y P s -> has_errors Y P s = false ->
+    simulate Y P flow solve_ok fx (update_parameters Y P U pupd s u) t_end (Some (S m)) = (s', Done) ->
+    has_errors Y P s' = false ->
+    let s1 := update_parameters Y P U pupd s u in
+    let h := sim_h Y P s1 t_end m in let rest := sim_rest Y P s1 t_end m in
+    s_mp s1 = pupd (s_mp s) u
+    /\ h == i_t0 (s_int s) /\ i_t0 (s_int s) + shiftv Y P s == reached Y P s
+    /\ incr (h :: rest) /\ appended Y P flow s1 s' h rest
+    /\ reached Y P s' == t_end.
+  Proof.
+    intros HI Herr E Herr'.
+    destruct (simulate_spec Y P flow solve_ok fx good
+                (update_parameters Y P U pupd s u) t_end (Some (S m)) m HI Herr eq_refl) as (_ & _ & _ & H).
+    destruct (H s' E Herr') as (A & B & _ & C & D & F & _).
+    cbv zeta. split; [reflexivity|]. split; [exact A|]. split; [exact B|]. split; [exact C|]. split; [exact D|exact F].
+  Qed.
+
+  Lemma protocol_tc_is_manual (rows : list (Q * U)) (s : sim Y P) (t_start : Q) (full : list Q) :
+    f_win_lo fx = CmpGt -> f_win_hi fx = CmpLe ->
+    (forall p t y t1, solve_ok p t y t1 = true) -> Inv2 Y P s -> has_errors Y P s = false ->
+    protocol_tc_loop Y P U flow solve_ok pupd fx s t_start full rows
+    = run_strict Y P U O flow solve_ok conv pupd yovr fx s
+        ((fix manual_tc (t0 : Q) (rows : list (Q * U)) : list (op U O) :=
+            match rows with
+            | [] => []
+            | (t_end, u) :: rest =>
+                OUpdPar u :: OTc (filter (fun t => Qltb t0 t && Qle_bool t t_end) full) :: manual_tc t_end rest
+            end) t_start rows).
+  Proof.
+    intros Hlo Hhi Hnf HI Herr.
+    rewrite (protocol_tc_loop_manual Y P U O flow solve_ok conv pupd yovr fx good rows s t_start full Hnf HI Herr).
+    f_equal. clear - Hlo Hhi. revert t_start. induction rows as [|[te u] rest IH]; intro t0; [reflexivity|].
+    cbn [manual_tc]. rewrite IH, Hlo, Hhi. reflexivity.
+  Qed.
+End Corollaries.
+
 (** the facts of the tree the theorems are instantiated at (edited only together with a fix: commit) *)
 Definition pinned_facts : sim_facts :=
   mkSimFacts FrameAbs CmpLe FrameAbs CmpLe CmpGe true true false true false 100 1000 CmpLe CmpGt CmpLe true true.
@@ -191,3 +238,97 @@ Definition unrepaired_facts : sim_facts :=
 
 Lemma not_incr_by_compute l : incrb l = false -> ~ incr l.
 Proof. intros H Hi. apply incr_incrb in Hi. congruence. Qed.
+
+(** ** pure list facts used by C14 *)
+Lemma filter_none_above (l : list Q) (x lo mid : Q) :
+  (forall y, In y l -> x < y) -> mid < x -> filter (fun t => Qltb lo t && Qle_bool t mid) l = [].
+Proof.
+  intros Hall Hx. induction l as [|y r IH]; [reflexivity|]. cbn [filter].
+  assert (E : Qle_bool y mid = false).
+  { apply Qle_bool_false. specialize (Hall y (or_introl eq_refl)). lra. }
+  rewrite E, andb_false_r. apply IH. intros z Hz. apply Hall. right. exact Hz.
+Qed.
+
+Lemma windows_partition (l : list Q) (lo mid hi : Q) :
+  incr l -> lo <= mid -> mid <= hi ->
+  filter (fun t => Qltb lo t && Qle_bool t mid) l ++ filter (fun t => Qltb mid t && Qle_bool t hi) l
+  = filter (fun t => Qltb lo t && Qle_bool t hi) l.
+Proof.
+  intros Hinc H1 H2. induction l as [|x r IH]; [reflexivity|].
+  destruct Hinc as [Hx Hr]. specialize (IH Hr). cbn [filter].
+  destruct (Qltb lo x) eqn:El; cbn [andb].
+  - apply Qltb_iff in El. destruct (Qle_bool x mid) eqn:Em.
+    + apply Qle_bool_iff in Em.
+      assert (E1 : Qltb mid x = false) by (apply Qltb_false; exact Em).
+      assert (E2 : Qle_bool x hi = true) by (apply Qle_bool_iff; lra).
+      rewrite E1, E2. cbn [andb app]. rewrite <- IH. reflexivity.
+    + apply Qle_bool_false in Em.
+      assert (E1 : Qltb mid x = true) by (apply Qltb_iff; exact Em). rewrite E1. cbn [andb].
+      rewrite (filter_none_above r x lo mid Hx Em) in *. cbn [app] in *.
+      destruct (Qle_bool x hi); [rewrite IH; reflexivity|exact IH].
+  - apply Qltb_false in El.
+    assert (E1 : Qltb mid x = false) by (apply Qltb_false; lra). rewrite E1. cbn [andb]. exact IH.
+Qed.
+
+Lemma qins_spec x l :
+  incr l ->
+  incr (qins x l)
+  /\ (exists y, In y (qins x l) /\ y == x)
+  /\ (forall y, In y l -> In y (qins x l))
+  /\ (forall y, In y (qins x l) -> y = x \/ In y l).
+Proof.
+  induction l as [|a r IH]; intro Hinc.
+  - cbn. split; [split; [intros ? []|exact I]|]. split; [exists x; split; [left; reflexivity|reflexivity]|].
+    split; [intros ? []|]. intros y [<-|[]]. left. reflexivity.
+  - destruct Hinc as [Ha Hr]. destruct (IH Hr) as (I1 & (w & Hw & Ew) & I3 & I4). cbn [qins].
+    destruct (Qltb x a) eqn:E1.
+    + apply Qltb_iff in E1. split; [|split; [|split]].
+      * split; [|split; assumption]. intros y [<-|Hy]; [exact E1|]. specialize (Ha y Hy). lra.
+      * exists x. split; [left; reflexivity|reflexivity].
+      * intros y Hy. right. exact Hy.
+      * intros y [<-|Hy]; [left; reflexivity|right; exact Hy].
+    + apply Qltb_false in E1. destruct (Qeq_bool x a) eqn:E2.
+      * apply Qeq_bool_iff in E2. split; [split; assumption|]. split; [exists a; split; [left; reflexivity|lra]|].
+        split; [intros y Hy; exact Hy|]. intros y Hy. right. exact Hy.
+      * apply Qeq_bool_false in E2. assert (Hlt : a < x) by (destruct (Qlt_le_dec a x); [assumption|exfalso; apply E2; lra]).
+        split; [|split; [|split]].
+        -- split; [|exact I1]. intros y Hy. destruct (I4 y Hy) as [->|Hy']; [exact Hlt|exact (Ha y Hy')].
+        -- exists w. split; [right; exact Hw|exact Ew].
+        -- intros y [<-|Hy]; [left; reflexivity|right; exact (I3 y Hy)].
+        -- intros y [<-|Hy]; [right; left; reflexivity|]. destruct (I4 y Hy) as [->|Hy']; [left; reflexivity|right; right; exact Hy'].
+Qed.
+
+Lemma qfold_spec (b base : list Q) :
+  incr base ->
+  incr (fold_right qins base b)
+  /\ (forall x, In x b \/ In x base -> exists y, In y (fold_right qins base b) /\ y == x)
+  /\ (forall y, In y (fold_right qins base b) -> In y b \/ In y base).
+Proof.
+  intro Hb. induction b as [|x r IH]; cbn [fold_right].
+  - split; [exact Hb|]. split; [intros x [[]|Hx]; exists x; split; [exact Hx|reflexivity]|]. intros y Hy. right. exact Hy.
+  - destruct IH as (I1 & I2 & I3). destruct (qins_spec x _ I1) as (J1 & (w & Hw & Ew) & J3 & J4).
+    split; [exact J1|]. split.
+    + intros z [[<-|Hz]|Hz].
+      * exists w. split; assumption.
+      * destruct (I2 z (or_introl Hz)) as (y & Hy & Ey). exists y. split; [exact (J3 y Hy)|exact Ey].
+      * destruct (I2 z (or_intror Hz)) as (y & Hy & Ey). exists y. split; [exact (J3 y Hy)|exact Ey].
+    + intros y Hy. destruct (J4 y Hy) as [->|Hy']; [left; left; reflexivity|].
+      destruct (I3 y Hy') as [H|H]; [left; right; exact H|right; exact H].
+Qed.
+
+Lemma qunion_exact (a b : list Q) :
+  incr (qunion a b)
+  /\ (forall x, In x a \/ In x b -> exists y, In y (qunion a b) /\ y == x)
+  /\ (forall y, In y (qunion a b) -> In y a \/ In y b).
+Proof.
+  unfold qunion.
+  destruct (qfold_spec a [] I) as (A1 & A2 & A3).
+  destruct (qfold_spec b (fold_right qins [] a) A1) as (B1 & B2 & B3).
+  split; [exact B1|]. split.
+  - intros x [Hx|Hx].
+    + destruct (A2 x (or_introl Hx)) as (y & Hy & Ey).
+      destruct (B2 y (or_intror Hy)) as (z & Hz & Ez). exists z. split; [exact Hz|lra].
+    + exact (B2 x (or_introl Hx)).
+  - intros y Hy. destruct (B3 y Hy) as [H|H]; [right; exact H|].
+    destruct (A3 y H) as [H'|[]]. left. exact H'.
+Qed.
